@@ -11,7 +11,7 @@ import util
 from framework import pmap
 
 ID = 'C10'
-LEAN_MODULES = ['Pfst.Props.C10']
+LEAN_MODULES = ['Pfst.Props.C10', 'Pfst.Props.C11b']
 THEOREMS = [
     'Pfst.C10.wrapper_cols', 'Pfst.C10.wrapper_bytes', 'Pfst.C10.wrapper_pads_ascii', 'Pfst.C10.reparse_atomic',
     'Pfst.C10.reparse_src', 'Pfst.C10.reparse_ok_iff_wrapper_parses', 'Pfst.C10.raw_atomic', 'Pfst.C10.raw_src',
@@ -20,7 +20,7 @@ THEOREMS = [
     'Pfst.C10.reparse_eq_full_partial', 'Pfst.C10.reparse_eq_full_f6', 'Pfst.C10.tail_not_past_semicolon',
     'Pfst.C10.guard_rejects_known_witnesses', 'Pfst.C10.f8_invalid_edit_refused', 'Pfst.C10.f9_valid_edit_accepted',
     'Pfst.C10.header_graft_keeps_old_blocks', 'Pfst.C10.header_graft_same_class', 'Pfst.C10.try_finally_no_phantom_handler',
-    'Pfst.C10.clip_in_range', 'Pfst.C10.ret_end_is_end_of_new_text',
+    'Pfst.C10.clip_in_range', 'Pfst.C10.ret_end_is_end_of_new_text', 'Pfst.C11b.clip_spellings', 'Pfst.C11b.clip_bounds',
     'Pfst.C10.raw_put_registry_restored', 'Pfst.C10.raw_put_outcome', 'Pfst.C10.raw_seq_registry_empty',
     'Pfst.C10.raw_seq_no_registry_error', 'Pfst.C10.leaky_seq_false',
 ]
@@ -29,7 +29,12 @@ RULE = ('histories of k<=6 raw edits on one live tree per corpus program, refuse
         'continuing on the same tree after every refusal; a deterministic family of edits wholly inside the header of every '
         'block statement kind x every combination of optional blocks x nesting (identity re-put of each header token and of '
         'the first two letters, every gap collapsed / widened / turned into a continuation, names renamed or parenthesised); '
-        'expression roots judged by ast.parse(mode="eval"); after EVERY step the full oracle and emptiness of '
+        'expression roots judged by ast.parse(mode="eval"); before EVERY step loc/bloc/pars() of every node are read (caches '
+        'populated), every put_src coordinate is spelled at random as plain / negative from the end of the source or of its '
+        'own line / "end" / out of range, get_src with the same spelling is compared with plain Python slicing, replacement '
+        'texts include equal-UTF-8-bytes/other-characters and equal-characters/other-bytes swaps of names and strings, raw node '
+        'puts prefer a node that follows the previous edit on its line; after EVERY step every node\'s .loc and .bloc '
+        '(characters) must follow from its own CPython byte positions; after EVERY step the full oracle and emptiness of '
         'fst_core._MODIFYING are checked; plus scripted histories and directed single edits on every run. Edits: '
         'per corpus program (snippets, generated programs with layout '
         'mutations, stdlib chunks): put_src(action="reparse") on rectangles at node spans, node-to-node spans, token '
@@ -51,7 +56,8 @@ TRUSTED = [
     'inputs of the model taken from pfst helper functions, not modelled: parent_stmtlike, find_contains_loc, is_elif, bloc, '
     '_loc_block_header_end, _get_block_indent, syntax_ordered_children; _put_src text effect modelled at spec level (one '
     'formula); _offset is modelled in Pfst/Offset.lean (C11) and linked by movePos_eq_offsetPos',
-    'not modelled: the mode="all" retry for non-module roots, parse_match_case / parse_ExceptHandler (special path: text compared, result judged only by the full '
+    'not modelled: the cache flushing done by _offset (judged only by the per-node .loc/.bloc check after every step); the '
+    'mode="all" retry for non-module roots, parse_match_case / parse_ExceptHandler (special path: text compared, result judged only by the full '
     'parse), _set_ast / cache maintenance, the f/t-string parent rule of _reparse_raw, argument validation of raw puts',
     'the header-only graft keeps "field absent" and "empty list" apart (Pfst.Raw.Blocks); the header-end guard of fix C10-F9 is '
     'an input of the model that is fed only when the code under test has the parameter blkhead_end',
@@ -60,6 +66,9 @@ TRUSTED = [
     'belong to other properties); raw puts that are refused before reaching _reparse_raw (delete/insert contract)',
 ]
 ASSUMPTIONS = [
+    'coordinate spellings: Pfst.C11b.clip_spellings (model Pfst/Clip.lean) is the statement that every spelling clips to the '
+    'canonical rectangle; Pfst.Raw.clipSrcLoc is a second transcription of clip_src_loc kept for the C10 driver, both are '
+    'compared with the implementation',
     'CPython ast.parse on the plainly spliced text is the judge of validity and of the expected tree (root kind Module)',
     'GuardSound (the guard implies locality of the parser) is evaluated per case through the model tree on the incremental '
     'path (model tree == full parse, tallied); the guard compares byte columns after the first-line delta where the code '
@@ -162,7 +171,8 @@ def _pipeline(ctx, recs, plan_only=False):
 def _witness(r):
     return {'src': r['src'], 'op': r['op'], 'rect': r['rect'], 'new': r['new'],
             **({'node_path': r['node_path']} if 'node_path' in r else {}),
-            **({'history': r['history']} if r.get('history') else {})}
+            **({'history': r['history']} if r.get('history') else {}),
+            **({'spelled': r['spelled']} if r.get('spelled') and r['spelled'] != r['rect'] else {})}
 
 
 def _account(ctx, triples, corr_name):
@@ -318,10 +328,12 @@ def _run_witness(ctx, w):
     if w.get('root') == 'expression':
         got, _ = _expr_case(w['src'], tuple(w['rect']), w['new'])
         return [(sig, f'expression root {w["src"]!r} put_src {w["rect"]} <- {w["new"]!r}: {what}') for sig, what in (got or [])]
-    if w.get('history') and w['op'] == 'put_src':
+    if w['op'] == 'put_src' and (w.get('history') or w.get('spelled')):
         # the failing step with the earlier steps of its history, on one tree
-        recs = ops.run_sequence((w['history']['src'], 0, 0, ['put_src'], [tuple(e) for e in w['history']['edits']] + [(w['new'], *w['rect'])]))
-        triples = _pipeline(ctx, recs[-1:] if len(recs) == len(w['history']['edits']) + 1 else [])
+        h = w.get('history') or {'src': w['src'], 'edits': []}
+        last = (w['new'], *w['rect'], w['spelled']) if w.get('spelled') else (w['new'], *w['rect'])
+        recs = ops.run_sequence((h['src'], 0, 0, ['put_src'], [tuple(e) for e in h['edits']] + [last]))
+        triples = _pipeline(ctx, recs[-1:] if len(recs) == len(h['edits']) + 1 else [])
     else:
         rec = ops.recorder()
         r = _exec_witness(w, rec)
@@ -429,6 +441,43 @@ HISTORIES = [
              ('k', 1, 6, 1, 7)]),                                             # same stmt, sibling, parent header (refused, accepted), grandparent
     (_HSRC, [('def', 5, 0, 5, 1), (':', 0, 0, 0, 0), ('yy', 5, 0, 5, 1), ('[', 5, 5, 5, 6), ('5', 5, 5, 5, 6)]),
 ]
+
+
+# equal UTF-8 byte length / other character count (and the reverse) followed by a raw put through a node AFTER the edit
+_BC = [("x = '\u00e9'; y = 1", ('ab', 0, 5, 0, 6), [['body', 1], ['value', None]], '22'),
+       ("if a:\n    s = 'ab'; t = u\nz = 3", ('\u00e9', 1, 9, 1, 11), [['body', 0], ['body', 1], ['value', None]], 'vw'),
+       ("if \u00fc: w = '\u65e5'; k = f(1)  # c\n", ('abc', 0, 11, 0, 12), [['body', 0], ['body', 1], ['value', None], ['args', 0]], 'zz'),
+       ("def f():\n    return 'xy' + g(h)\n", ('\u00fc', 1, 12, 1, 14), [['body', 0], ['body', 0], ['value', None], ['right', None]], 'q'),
+       ("x = '\u00e9'; y = 1", ('abc', 0, 5, 0, 6), [['body', 1], ['value', None]], '22'),
+       ("x = 'cd'; y = 1", ('\u00fcd', 0, 5, 0, 7), [['body', 1], ['value', None]], '22')]
+HISTORIES += [(src, [first, ('raw', path, new2)]) for src, first, path, new2 in _BC]
+# coordinate spellings on multi-line rectangles whose first and last lines differ in length (6th entry = as spelled)
+HISTORIES += [
+    ('values = (1,\n  2)\nn = 0', [('(3,\n  4', 0, 9, 1, 3, [0, -3, -2, -1]), ('5', 1, 2, 1, 3, [-2, 2, 1, -1])]),
+    ('def f(a,\n      bcd): return a\nx = 1', [('zz', 0, 6, 1, 9, [-3, 6, -2, -11]), ('k', 1, 4, 1, 5, [1, -1, 'end', 99])]),
+    ('if a:\n    b = [1,\n 2]; c = 3\n', [('7', 1, 9, 2, 2, [1, -2, 2, -8]), ('', 1, 11, 1, 18, [-2, 11, -2, 'end'])]),
+]
+
+
+def _py_resolve(spelled, lines):
+    """plain Python index semantics of a spelled rectangle (the specification the spellings above are checked against)"""
+    ln, col, end_ln, end_col = spelled
+    n = len(lines)
+    ln = n - 1 if ln == 'end' else ln + n if ln < 0 else ln
+    end_ln = n - 1 if end_ln == 'end' else end_ln + n if end_ln < 0 else end_ln
+    f = lambda c, i: len(lines[i]) if c == 'end' else max(0, c + len(lines[i])) if c < 0 else min(c, len(lines[i]))
+    return [ln, f(col, ln), end_ln, f(end_col, end_ln)]
+
+
+for _src, _script in HISTORIES:
+    _cur = _src
+    for _e in _script:
+        if _e[0] != 'raw':
+            if len(_e) == 6:
+                assert _py_resolve(_e[5], _cur.split('\n')) == list(_e[1:5]), (_src, _e)
+            _cur = ops.splice(_cur, _e[0], *_e[1:5])
+        else:
+            break
 
 
 def _histories(ctx):
@@ -559,6 +608,15 @@ def search(ctx):
     """Something broke: evaluate the property itself more widely, first around the disagreeing inputs."""
     seeds = []
     for name, w in ctx.hints[:200]:
+        if isinstance(w, dict) and w.get('f') == 'C10.clip':
+            # a coordinate spelling on which clip_src_loc and the model disagree: the same spelling through put_src (identity text)
+            src = '\n'.join(w['lines'])
+            exp = ctx.lean([w])[0].get('out')
+            if isinstance(exp, list) and src.strip():
+                wit = {'src': src, 'op': 'put_src', 'rect': exp, 'new': ops.splice_get(w['lines'], *exp), 'spelled': w['a']}
+                for sig, what in _run_witness(ctx, wit):
+                    ctx.fail(sig, what, wit)
+            continue
         if isinstance(w, dict) and 'src' in w:
             seeds.append(w['src'])
             for sig, what in _run_witness(ctx, w) if 'op' in w else []:
